@@ -132,8 +132,8 @@ class Net:
                 n += 1
                 if after_step:
                     after_step()
-                if n > max_steps:
-                    self.error = ("livelock", "more than %d kernel steps" % max_steps)
+                if n > max_steps or n > 5000 + 500 * len(self.arrs):
+                    self.error = ("livelock", "more than %d kernel steps for %d arrivals" % (n - 1, len(self.arrs)))
                     break
             if settled and self.error is None:
                 settled()
